@@ -102,3 +102,49 @@ Proof.
   cbn [orb]. intros H. apply x_bind_ok in H. destruct H as ([s4 last] & Hp & H). injection H as <-.
   split; [lia|]. split; [lia|]. exists s4, last. split; [exact Hp|reflexivity].
 Qed.
+
+(* ---- TempoChange: an invariant kept by tempo_change and by moving the pointer of the current track is kept by the ramp ---- *)
+Section TempoChangeInv.
+  Variable P : song -> Prop.
+  Hypothesis P_tempo : forall s v, P s -> P (tempo_change s v).
+  Hypothesis P_move : forall s (f : track -> Z), P s -> P (upd_cur s (fun t => tr_set_timepos t (f t))).
+
+  Lemma tempo_ramp_loop_inv a w st n : forall idx s, P s -> P (tempo_ramp_loop s a w st n idx).
+  Proof.
+    induction idx as [|i r IH]; intros s H; [exact H|]. cbn [tempo_ramp_loop].
+    apply IH. apply (P_move _ (fun t => tr_timepos t + st)). apply P_tempo, H.
+  Qed.
+  Lemma tempo_change_a_to_b_inv s a b len s' : P s -> tempo_change_a_to_b s a b len = Ok s' -> P s'.
+  Proof.
+    intros H. unfold tempo_change_a_to_b. destruct (_ =? 0); [discriminate|]. destruct (RAMP_MAX <? len); [discriminate|].
+    intros E; injection E as <-.
+    apply (P_move _ (fun _ => tr_timepos (cur_track s))). apply P_tempo.
+    apply (P_move _ (fun _ => tr_timepos (cur_track s) + len)). apply tempo_ramp_loop_inv, H.
+  Qed.
+  Lemma exec_tempo_change_inv s a rest s' : P s -> exec_tempo_change s a rest = Ok s' -> P s'.
+  Proof.
+    intros H. unfold exec_tempo_change. destruct rest as [|b [|len [|x r]]].
+    - intros E; injection E as <-. apply P_tempo, H.
+    - apply tempo_change_a_to_b_inv, H.
+    - apply tempo_change_a_to_b_inv, H.
+    - intros E; injection E as <-. apply P_tempo, H.
+  Qed.
+End TempoChangeInv.
+
+(* ---- SysEx: a runtime error entry and nothing else, or one event; GSEffect: the events of Cmd.cmd_gs_effect ---- *)
+Lemma exec_sysex_cases s cs args s' : exec_sysex s cs args = Ok s' ->
+  (args = [] /\ exists m, s' = runtime_error s m) \/
+  (args <> [] /\ zlen args <= SYSEX_MAX /\ s' = add_events s (fun tp _ => Cmd.cmd_sysex tp args (cs =? 1))).
+Proof.
+  unfold exec_sysex. destruct args as [|a r].
+  - intros E; injection E as <-. left. split; [reflexivity|]. eexists; reflexivity.
+  - destruct (SYSEX_MAX <? _) eqn:G; [discriminate|]. intros E; injection E as <-. right.
+    split; [discriminate|]. split; [lia|reflexivity].
+Qed.
+Lemma exec_gs_effect_cases s tag a rest s' : exec_gs_effect s tag a rest = Ok s' ->
+  exists evs, Cmd.cmd_gs_effect (tr_timepos (cur_track s)) (as_u8 (s_device s)) (tr_channel (cur_track s)) tag (a :: rest) = Ok evs
+              /\ s' = add_events s (fun _ _ => evs).
+Proof.
+  unfold exec_gs_effect. destruct (Cmd.cmd_gs_effect _ _ _ _ _) as [evs| | |]; cbn [bind]; try discriminate.
+  intros E; injection E as <-. eexists; split; reflexivity.
+Qed.
